@@ -612,6 +612,38 @@ fn c19_roundtrip(ctx: &Ctx, sub: &'static str, n: u64, out: &mut Outcome) {
             out.violation("C19|not-toml", "serialised text is not valid TOML".to_string(), rp());
             return;
         };
+        // (c) once more, for a document parsed straight into the "verified" wrapper
+        // (error::Verified<config::Encoder> implements Deserialize): the parse must succeed
+        // exactly when verification of the in-memory value does, and then hold that value
+        {
+            use flacenc::error::Verified;
+            let want = c.verify().is_ok();
+            let via_toml = catch(|| val.clone().try_into::<Verified<config::Encoder>>());
+            let via_json = catch(|| serde_json::to_string(&c).ok().map(|j| serde_json::from_str::<Verified<config::Encoder>>(&j)));
+            for (how, got) in [("toml::Value::try_into", via_toml.map(|r| r.ok())), ("serde_json::from_str", via_json.map(|r| r.and_then(|r| r.ok())))] {
+                match got {
+                    Ok(Some(v)) => {
+                        out.count("parsed_as_verified_ok");
+                        if !want {
+                            out.violation("C19|verify-differs|parsed-as-Verified", format!("{how}: a configuration that verification rejects parses into Verified<Encoder>; document:\n{text}"), rp());
+                        } else if !nan {
+                            if let Err(d) = cfg_eq(&c, &v) {
+                                out.violation("C19|roundtrip-differs|parsed-as-Verified", format!("{how}: {d}"), rp());
+                            }
+                        }
+                    }
+                    Ok(None) => {
+                        out.count("parsed_as_verified_err");
+                        // serde_json cannot carry NaN / infinite alphas (they become null): not judged
+                        let finite = !matches!(c.subframe_coding.qlpc.window, Window::Tukey { alpha } if !alpha.is_finite());
+                        if want && (how != "serde_json::from_str" || finite) {
+                            out.violation("C19|verify-differs|parsed-as-Verified", format!("{how}: a configuration that verification accepts does not parse into Verified<Encoder>; document:\n{text}"), rp());
+                        }
+                    }
+                    Err(p) => out.violation(format!("C19|parse-panics|{}", p.site()), p.short(), rp()),
+                }
+            }
+        }
         let rounds = 1 + rng.usize_below(6);
         for _ in 0..rounds {
             let mut v = val.clone();
